@@ -275,6 +275,9 @@ func (p *Prog) c17held(fn *ssa.Function, in ssa.Instruction, root ssa.Value, mu 
 		if idx >= len(args) {
 			return 0, "call shape"
 		}
+		if _, fresh := c17root(args[idx]).(*ssa.Alloc); fresh {
+			continue // the caller allocated the object itself: not shared yet (constructor)
+		}
 		m, why := p.c17held(cs.Fn, cs.Call, c17root(args[idx]), mu, depth+1)
 		if m == 0 {
 			return 0, why + " (calls " + fnName(fn) + ")"
@@ -522,4 +525,129 @@ func (p *Prog) c17lockOrder() (edges []c17OrderEdge, self []c17OrderEdge) {
 		return edges[i].to < edges[j].to
 	})
 	return
+}
+
+// ---------------------------------------------------------------------------
+// helpers of the who-may tables
+
+// c17onlyCalledFrom: fn (its outermost enclosing function) is one of allowed, or an unexported helper
+// — never used as a function value, and with plainOnly never started with go/defer — all of whose
+// static callers are, transitively (depth <= InlineDepth). A who-may table names the API functions;
+// a helper reachable only from them acts on their behalf.
+func (p *Prog) c17onlyCalledFrom(fn *ssa.Function, allowed map[*ssa.Function]bool, plainOnly bool, depth int) bool {
+	fn = topFn(fn)
+	if allowed[fn] {
+		return true
+	}
+	if depth >= InlineDepth || fn.Object() == nil || token.IsExported(fn.Name()) || len(p.c05funcValueUses(fn)) > 0 {
+		return false
+	}
+	sites := p.callSites(fn.Object())
+	if len(sites) == 0 {
+		return false
+	}
+	for _, cs := range sites {
+		if _, plain := cs.Call.(*ssa.Call); !plain && plainOnly {
+			return false
+		}
+		if !p.c17onlyCalledFrom(cs.Fn, allowed, plainOnly, depth+1) {
+			return false
+		}
+	}
+	return true
+}
+
+// c17Use is a use of a value that was followed through the results of unexported helpers: the
+// instruction, the function it is in, and the receiver the value was loaded from as seen there.
+type c17Use struct {
+	fn   *ssa.Function
+	in   ssa.Instruction
+	base ssa.Value
+}
+
+// c17usesOf lists the uses of v (a value of fn derived from receiver base): its referrers, where a
+// Return of an unexported helper continues at the helper's call sites with the result value.
+func (p *Prog) c17usesOf(fn *ssa.Function, v ssa.Value, base ssa.Value, depth int) []c17Use {
+	var out []c17Use
+	if v.Referrers() == nil {
+		return nil
+	}
+	for _, u := range *v.Referrers() {
+		// spilled into a local cell (named or defer-spilled result, local variable): continue at its loads
+		if st, isSt := u.(*ssa.Store); isSt && st.Val == v && depth < 2*InlineDepth {
+			if al, isAl := st.Addr.(*ssa.Alloc); isAl && !c05cellEscapes(al) {
+				c05cellRefs(al, func(addr ssa.Value, in ssa.Instruction) {
+					if ld, ok := in.(*ssa.UnOp); ok && ld.Op == token.MUL && ld.X == addr {
+						if ld.Parent() == fn {
+							out = append(out, p.c17usesOf(fn, ld, base, depth+1)...)
+						} else {
+							out = append(out, c17Use{ld.Parent(), ld, nil})
+						}
+					}
+				})
+				continue
+			}
+		}
+		ret, isRet := u.(*ssa.Return)
+		if !isRet || depth >= InlineDepth || fn.Object() == nil || fn.Parent() != nil || token.IsExported(fn.Name()) || len(p.c05funcValueUses(fn)) > 0 {
+			out = append(out, c17Use{fn, u, base})
+			continue
+		}
+		idx := -1
+		for i, r := range ret.Results {
+			if r == v {
+				idx = i
+			}
+		}
+		par, isPar := base.(*ssa.Parameter)
+		sites := p.callSites(fn.Object())
+		if idx < 0 || !isPar || len(sites) == 0 {
+			out = append(out, c17Use{fn, u, base})
+			continue
+		}
+		pi := c05paramIndex(fn, par)
+		for _, cs := range sites {
+			args := cs.Call.Common().Args
+			rv := cs.Call.Value()
+			if rv == nil || pi < 0 || pi >= len(args) {
+				out = append(out, c17Use{cs.Fn, cs.Call, nil})
+				continue
+			}
+			var res ssa.Value = rv
+			if _, isTuple := rv.Type().(*types.Tuple); isTuple {
+				res = extractN(rv, idx)
+			}
+			if res == nil {
+				continue // result unused at this call site
+			}
+			out = append(out, p.c17usesOf(cs.Fn, res, c17root(args[pi]), depth+1)...)
+		}
+	}
+	return out
+}
+
+// c17accessPoints: the instructions of fn at which the fields listed in direct are accessed: direct
+// accesses, and calls of same-package helpers that (transitively) access them.
+func (p *Prog) c17accessPoints(fn *ssa.Function, direct map[*ssa.Function][]c17Access, depth int) []ssa.Instruction {
+	var out []ssa.Instruction
+	for _, a := range direct[fn] {
+		out = append(out, a.in)
+	}
+	if depth >= InlineDepth {
+		return out
+	}
+	allInstrs(fn, func(_ *ssa.BasicBlock, _ int, in ssa.Instruction) {
+		call, ok := in.(*ssa.Call)
+		if !ok {
+			return
+		}
+		g := calleeFn(call)
+		if g == nil || g == fn || g.Blocks == nil || fnPkg(g) != fnPkg(fn) {
+			return
+		}
+		if len(p.c17accessPoints(g, direct, depth+1)) > 0 {
+			out = append(out, in)
+		}
+	})
+	return out
 }
